@@ -32,11 +32,15 @@ var unique = map[tree.Path]indexer{}
 
 func init() {
 	unique["networks.*.labels"] = keyValueIndexer
+	unique["volumes.*.labels"] = keyValueIndexer
+	unique["secrets.*.labels"] = keyValueIndexer
+	unique["configs.*.labels"] = keyValueIndexer
 	unique["networks.*.ipam.options"] = keyValueIndexer
 	unique["services.*.annotations"] = keyValueIndexer
 	unique["services.*.build.args"] = keyValueIndexer
 	unique["services.*.build.additional_contexts"] = keyValueIndexer
 	unique["services.*.build.platform"] = keyValueIndexer
+	unique["services.*.build.ssh"] = keyValueIndexer
 	unique["services.*.build.tags"] = keyValueIndexer
 	unique["services.*.build.labels"] = keyValueIndexer
 	unique["services.*.cap_add"] = keyValueIndexer
@@ -49,7 +53,10 @@ func init() {
 	unique["services.*.dns_search"] = keyValueIndexer
 	unique["services.*.environment"] = keyValueIndexer
 	unique["services.*.env_file"] = envFileIndexer
+	unique["services.*.device_cgroup_rules"] = valueIndexer
 	unique["services.*.expose"] = exposeIndexer
+	unique["services.*.external_links"] = valueIndexer
+	unique["services.*.group_add"] = valueIndexer
 	unique["services.*.labels"] = keyValueIndexer
 	unique["services.*.links"] = keyValueIndexer
 	unique["services.*.networks.*.aliases"] = keyValueIndexer
@@ -57,9 +64,11 @@ func init() {
 	unique["services.*.ports"] = portIndexer
 	unique["services.*.profiles"] = keyValueIndexer
 	unique["services.*.secrets"] = mountIndexer("/run/secrets")
+	unique["services.*.security_opt"] = valueIndexer
 	unique["services.*.sysctls"] = keyValueIndexer
 	unique["services.*.tmpfs"] = keyValueIndexer
 	unique["services.*.volumes"] = volumeIndexer
+	unique["services.*.volumes_from"] = valueIndexer
 	unique["services.*.devices"] = deviceMappingIndexer
 }
 
@@ -105,6 +114,11 @@ func enforceUnicity(value any, p tree.Path) (any, error) {
 		}
 	}
 	return value, nil
+}
+
+// valueIndexer identifies an entry by its whole value: only exact duplicates collapse
+func valueIndexer(v any, _ tree.Path) (string, error) {
+	return fmt.Sprint(v), nil
 }
 
 func keyValueIndexer(v any, p tree.Path) (string, error) {
